@@ -89,6 +89,22 @@ def resp():
     table("R:NEST?", "(&'static [u8], &'static str)", ["(&[%s], %s)" % (", ".join(map(str, a)), rust_str(s)) for a, s in nest],
           "(&[u8], &str)", "Ok($T[a0])",
           [{"t": "tup", "items": ([{"t": "tup", "items": [iv(v) for v in a]}] if a else [{"t": "tup", "items": []}]) + [sv(s)]} for a, s in nest])
+    # deeper nesting: tuple of tuples, slice of tuples, vector of strings, tuple holding a list in the middle
+    tt = [((-128, 'a"b'), (True, 255)), ((127, ""), (False, 0))]
+    table("R:TT?", "((i8, &'static str), (bool, u8))", ["((%d, %s), (%s, %d))" % (a, rust_str(b_), str(c).lower(), d) for (a, b_), (c, d) in tt],
+          "((i8, &str), (bool, u8))", "Ok($T[a0])",
+          [{"t": "tup", "items": [{"t": "tup", "items": [iv(a), sv(b_)]}, {"t": "tup", "items": [{"t": "bool", "v": c}, iv(d)]}]} for (a, b_), (c, d) in tt])
+    st = [[(1, "x"), (2, 'y,"z"')], [(0, "")], []]
+    table("R:SLT?", "&'static [(u8, &'static str)]", ["&[%s]" % ", ".join("(%d, %s)" % (a, rust_str(b_)) for a, b_ in x) for x in st], "&[(u8, &str)]", "Ok($T[a0])",
+          [{"t": "tup", "items": [{"t": "tup", "items": [iv(a), sv(b_)]} for a, b_ in x]} for x in st])
+    vs_ = [["ab", 'c"d'], ["", "e,f", "g"], []]
+    table("R:HVS?", "heapless::Vec<heapless::String<8>, 4>", ["&[%s]" % ", ".join(rust_str(v) for v in x) for x in vs_], "&[&str]",
+          "Ok($T[a0].iter().map(|s| heapless::String::<8>::try_from(*s).unwrap()).collect())",
+          [{"t": "tup", "items": [sv(v) for v in x]} for x in vs_])
+    mid = [(7, [1, 2, 3], "end"), (0, [], 'q"')]
+    table("R:MID?", "(u8, &'static [i16], &'static str)", ["(%d, &[%s], %s)" % (a, ", ".join(map(str, l)), rust_str(t_)) for a, l, t_ in mid],
+          "(u8, &[i16], &str)", "Ok($T[a0])",
+          [{"t": "tup", "items": [iv(a), {"t": "tup", "items": [iv(v) for v in l]}, sv(t_)]} for a, l, t_ in mid])
     errs = [("UndefinedHeader", -113, "Undefined header"), ("QueueOverflow", -350, "Queue overflow"), ("DataTypeError", -104, "Data type error")]
     table("R:ERR?", "Error", ["Error::%s" % e for e, _, _ in errs], "Error", "Ok($T[a0])",
           [{"t": "tup", "items": [iv(n), sv(t)]} for _, n, t in errs])
